@@ -122,10 +122,76 @@ def scaled_case(case, name, factor):
     return c2
 
 
+SEQ_SERIES = ["feed", "biofuel", "fish", "grass", "scp", "cs", "built_area", "stored"]
+
+
+def audit_sequence(case, failures, stats):
+    """a run's result for a country must not depend on which countries were run before it with the same options"""
+    rs = c08_impl.run_case(case)
+    stats["cases"] += 1
+    stats["sequence_cases"] = stats.get("sequence_cases", 0) + 1
+    opt = rs["options_before"]
+    if not rs["options_unchanged"]:
+        diff = {k: (opt.get(k), rs["options_after"].get(k)) for k in set(opt) | set(rs["options_after"]) if opt.get(k) != rs["options_after"].get(k)}
+        failures.append({"kind": "shared-options-modified", "kind_of_failure": "shared-options-modified", "case": case,
+                         "what": f"running {case['isos']} in one sequence changed the caller's scenario options: {diff}"})
+    for iso, r in zip(case["isos"], rs["sequence"]):
+        alone = c08_impl.run_case({"kind": "real", "iso3": iso, "options": opt})
+        stats["checks"] += 1
+        if r["inputs"] is None or alone["inputs"] is None:
+            continue
+        for nm in SEQ_SERIES + ["crops"]:
+            a = r["crops"]["obs"]["prod"] if nm == "crops" else r["obs"].get(nm)
+            b = alone["crops"]["obs"]["prod"] if nm == "crops" else alone["obs"].get(nm)
+            if a is None or b is None:
+                continue
+            scale = max([abs(x) for x in b], default=0.0)
+            if len(a) != len(b) or any(relerr(x, y, scale) > REL for x, y in zip(a, b)):
+                m = next((k for k, (x, y) in enumerate(zip(a, b)) if relerr(x, y, scale) > REL), -1)
+                kind = "series-depends-on-earlier-countries-" + nm
+                failures.append({"kind": kind, "kind_of_failure": kind, "case": case, "month": m,
+                                 "what": f"{iso} run after {case['isos'][:case['isos'].index(iso)]} with one shared option dict: {nm} month {m} is "
+                                         f"{a[m] if m >= 0 else len(a)!r}, run alone it is {b[m] if m >= 0 else len(b)!r}"})
+                break
+
+
+HANDOFF = [("fish", "fish"), ("scp_prod", "scp"), ("cs_prod", "cs"), ("built_area", "built_area"), ("growth", "growth")]
+
+
+def audit_handoff(case, failures, stats):
+    """the series each round's optimiser receives == the first-round series (themselves compared with the closed forms)"""
+    opt, lps, err = c09_audit.three_round_run(case)
+    stats["cases"] += 1
+    stats["handoff_runs"] = stats.get("handoff_runs", 0) + 1
+    if err or len(lps) not in c09_audit.ROUND_NAMES:
+        stats["handoff_skipped"] = stats.get("handoff_skipped", 0) + 1
+        return
+    r = c08_impl.run_case({"kind": "real", "iso3": case["iso3"], "options": opt})
+    if r["inputs"] is None:
+        return
+    e = expected(r["inputs"])
+    for (k, rname), lp in zip(c09_audit.ROUND_NAMES[len(lps)], lps):
+        for key, nm in HANDOFF:
+            stats["checks"] += 1
+            got, ref = lp[key], r["obs"][nm]
+            bad = cmp_series(got, [F(x) for x in ref])
+            if bad is None and not (nm == "scp"):
+                bad = cmp_series(got, e[nm])
+            if bad is not None:
+                kind = f"{nm}-handed-to-round{k}-differs@compute_parameters_{rname}"
+                failures.append({"kind": kind, "kind_of_failure": kind, "case": case, "month": bad,
+                                 "what": f"{case['iso3']}: round {k} optimiser receives {got[bad] if bad >= 0 else len(got)!r} for {nm} month {bad}; "
+                                         f"the first-round series has {ref[bad] if bad >= 0 else len(ref)!r}"})
+
+
 def audit_case(case, failures, stats):
     def fail(kind, what, **kw):
         failures.append({"kind": kind, "what": what, "case": case, "kind_of_failure": kind, **kw})
 
+    if case["kind"] == "sequence":
+        return audit_sequence(case, failures, stats)
+    if case["kind"] == "handoff":
+        return audit_handoff(case, failures, stats)
     r = c08_impl.run_case(case)
     stats["cases"] += 1
     if r["inputs"] is None:
